@@ -326,3 +326,173 @@ def no_unconditional_self_recursion(F, rep, rule, crates, only=None, floor=300):
                       "%s calls itself on every path (line %s): any call overflows the stack and aborts the process" % (b.fn[:200], sorted({b.blocks[i]["t"].get("l") for i in selfcalls})), b.where(),
                       sample={"fn": b.fn[:160], "self_calls": len(selfcalls)})
     rep.floor(rule, "bodies examined for unconditional self-recursion", n, floor)
+
+
+# ---------------------------------------------------------------- C14-R6
+def c14_membership_complement(F, rep):
+    rep.rule("C14-R6", "membership: over the four combinations of (kinds equal, set contains element) the ∈ kernel is `kinds equal AND contains` and the ∉ kernel is its exact negation")
+    structs = {}
+    for it in F.syn("mech_set.lib"):
+        if it["k"] == "method" and it["name"] == "solve" and it.get("body"):
+            structs[str(it["self"])] = it
+    want = {"SetElementOfFxn": lambda ke, c: ke and c, "SetNotElementOfFxn": lambda ke, c: not (ke and c)}
+
+    class NE(Exception):
+        pass
+
+    def ev(e, ke, c):
+        if not is_node(e):
+            raise NE()
+        t = e[0]
+        txt = re.sub(r"\s", "", render(e))
+        if t == "bool":
+            return bool(e[1])
+        if t == "paren":
+            return ev(e[1], ke, c)
+        if t == "mcall" and e[2] == "contains":
+            return c
+        if t == "bin" and e[1] in ("==", "!=") and "kind" in txt:
+            return ke if e[1] == "==" else (not ke)
+        if t == "un" and e[1] == "!":
+            return not ev(e[2], ke, c)
+        if t == "un" and e[1] == "*":
+            return ev(e[2], ke, c)
+        if t == "bin" and e[1] == "&&":
+            return ev(e[2], ke, c) and ev(e[3], ke, c)
+        if t == "bin" and e[1] == "||":
+            return ev(e[2], ke, c) or ev(e[3], ke, c)
+        raise NE()
+
+    def run_stmts(stmts, ke, c, out):
+        for st in stmts:
+            e = st[1] if st[0] == "expr" else None
+            if e is None or not is_node(e):
+                continue
+            if e[0] in ("unsafe", "block"):
+                run_stmts(e[1], ke, c, out)
+            elif e[0] == "assign" and re.match(r"^\*?\(?\*?out", re.sub(r"\s", "", render(e[1]))):
+                out.append(ev(e[2], ke, c))
+            elif e[0] == "if":
+                if ev(e[1], ke, c):
+                    run_stmts(e[2], ke, c, out)
+                elif e[3] is not None:
+                    run_stmts(e[3][1] if e[3][0] == "block" else [["expr", e[3], False]], ke, c, out)
+    n = 0
+    for name, f in want.items():
+        it = [v for k, v in structs.items() if name in k]
+        if not rep.check(len(it) == 1, "C14-R6", "anchor:%s" % name, "%s::solve not found" % name):
+            continue
+        wrong = []
+        try:
+            for ke in (True, False):
+                for c in (True, False):
+                    out = []
+                    run_stmts(it[0]["body"], ke, c, out)
+                    n += 1
+                    if not out or out[-1] != f(ke, c):
+                        wrong.append("kinds %s, %s -> %s" % ("equal" if ke else "differ", "contained" if c else "not contained", out[-1] if out else "nothing written"))
+        except NE:
+            rep.note("C14-R6-undecided", "%s::solve not interpretable" % name)
+            continue
+        rep.check(not wrong, "C14-R6", "%s:truth-table" % name,
+                  "%s::solve is not %s: %s" % (name, "`kinds equal AND contains`" if name == "SetElementOfFxn" else "the negation of ∈ (`kinds differ OR not contained`)", "; ".join(wrong)),
+                  "%s (mech_set.lib)" % name, sample={"kernel": name, "combinations": 4})
+    rep.floor("C14-R6", "membership kernel evaluations", n, 8)
+
+
+# ---------------------------------------------------------------- C12-R5
+def c12_reshape_allocation(F, rep):
+    rep.rule("C12-R5", "reshape dispatch: in `match (matrix, shape[0], shape[1])` an arm's output is allocated with (rows, cols) = (second, third) pattern position "
+                       "(DMatrix::from_element(rows, cols, ..); DVector of `rows` when cols is 1; RowDVector of `cols` when rows is 1)")
+    n = 0
+    for it in F.syn("mech_interpreter.lib"):
+        if it["k"] != "fn" or not it.get("body") or "reshape" not in it["name"]:
+            continue
+        for m in find(it["body"], "match"):
+            if not (is_node(m[1]) and m[1][0] == "tuple" and len(m[1][1]) == 3):
+                continue
+            sc = [re.sub(r"\s", "", render(x)) for x in m[1][1]]
+            if not (re.search(r"\[0\]$", sc[1]) and re.search(r"\[1\]$", sc[2])):
+                continue
+            for a in m[2]:
+                pt = a[0]
+                if pt[0] != "ptuple" or len(pt[1]) != 3:
+                    continue
+                rows_p, cols_p = render_pat(pt[1][1]), render_pat(pt[1][2])
+                for c in find(a[2], "call"):
+                    pth = path_of(c[1]) or ""
+                    mm = re.match(r"^(DMatrix|DVector|RowDVector)::from_element$", pth)
+                    if not mm or len(c[2]) < 2:
+                        continue
+                    n += 1
+                    got = [re.sub(r"\s", "", render(x)) for x in c[2][:-1]]
+                    want = [rows_p, cols_p] if mm.group(1) == "DMatrix" else ([rows_p] if mm.group(1) == "DVector" else [cols_p])
+                    src_form = render_pat(pt[1][0])[:30]
+                    rep.check(got == want, "C12-R5", "%s:%s:(%s,%s)->%s" % (it["name"], re.sub(r"[^A-Za-z0-9]+", "", src_form), rows_p, cols_p, mm.group(1)) if got == want else
+                              "%s:%s:(%s,%s)->%s:%s" % (it["name"], re.sub(r"[^A-Za-z0-9]+", "", src_form), rows_p, cols_p, mm.group(1), ",".join(got)),
+                              "%s: the arm for target shape (%s, %s) allocates %s::from_element(%s): the reshaped value comes out with rows and columns exchanged (or the wrong length)" % (
+                                  it["name"], rows_p, cols_p, mm.group(1), ", ".join(got)), "%s (mech_interpreter.lib)" % it["name"],
+                              sample={"arm": "(%s, %s, %s)" % (src_form, rows_p, cols_p), "allocation": got})
+    rep.floor("C12-R5", "reshape output allocations", n, 6)
+
+
+# ---------------------------------------------------------------- C19-R6
+def c19_hash_order_sensitive_use(F, rep):
+    rep.rule("C19-R6", "evaluators do not depend on std HashMap/HashSet iteration order: a sequence collected while iterating a hash-ordered field of a value "
+                       "(MechTable::col_names, MechRecord::field_names, ...) is never used position-wise (first / last / [k] / next / pop)")
+    hash_fields = set()
+    for a in F.adts("mech_core.lib"):
+        if a["enum"]:
+            continue
+        if a["name"].split("::")[-1] not in ("MechTable", "MechRecord", "MechEnum", "MechMap", "MechSet", "MechAtom"):
+            continue
+        for f in a["variants"][0]["fields"]:
+            if re.search(r"hash::(map::HashMap|set::HashSet)", f[1]) and not f[0].isdigit():
+                hash_fields.add(f[0])
+    rep.floor("C19-R6", "hash-ordered fields of value structures", len(hash_fields), 2)
+    POSITIONAL = {"first", "last", "pop", "remove", "swap_remove", "first_mut", "last_mut", "split_first", "split_last", "nth"}
+    n_taint = 0
+    for crate in ("mech_interpreter.lib", "mech_core.lib"):
+        for it in F.syn(crate):
+            if it["k"] not in ("fn", "method") or not it.get("body"):
+                continue
+            tainted = {}
+            fld = re.compile(r"\.\s*(%s)\b" % "|".join(sorted(map(re.escape, hash_fields)))) if hash_fields else None
+            if fld is None:
+                break
+            for lp in find(it["body"], "for"):
+                src = render(lp[2])
+                if fld.search(src):
+                    for m in find(lp[3], "mcall"):
+                        if m[2] in ("push", "push_back", "insert") and is_node(m[1]) and m[1][0] == "path":
+                            tainted[m[1][1]] = fld.search(src).group(1)
+            for st in find(it["body"], "let"):
+                if len(st) == 4 and st[2] is not None and st[1][0] in ("pident", "ptype"):
+                    nm = st[1][1] if st[1][0] == "pident" else (st[1][1][1] if is_node(st[1][1]) and st[1][1][0] == "pident" else None)
+                    txt = render(st[2])
+                    if nm and fld.search(txt) and re.search(r"\.(iter|keys|values|into_iter)\(\)", txt) and re.search(r"collect", txt) and not re.search(r"BTree|sort", txt):
+                        tainted[nm] = fld.search(txt).group(1)
+            if not tainted:
+                continue
+            n_taint += len(tainted)
+            sorted_vars = {render(m[1]) for m in find(it["body"], "mcall") if m[2] in ("sort", "sort_by", "sort_by_key", "sort_unstable", "sort_unstable_by", "sort_unstable_by_key")}
+            for v, field in sorted(tainted.items()):
+                if v in sorted_vars:
+                    rep.ok("C19-R6", "%s:%s:sorted" % (it["name"], v))
+                    continue
+                uses = []
+                for m in find(it["body"], "mcall"):
+                    base = m[1]
+                    while is_node(base) and base[0] == "mcall" and base[2] in ("iter", "into_iter", "iter_mut", "as_slice", "clone", "copied", "cloned"):
+                        base = base[1]
+                    if is_node(base) and base[0] == "path" and base[1] == v:
+                        if m[2] in POSITIONAL or (m[2] == "next" and m[1] is not base) or (m[2] == "get" and m[4] and m[4][0][0] == "int"):
+                            uses.append(m[2])
+                for ix in find(it["body"], "index"):
+                    if is_node(ix[1]) and ix[1][0] == "path" and ix[1][1] == v and is_node(ix[2]) and ix[2][0] == "int":
+                        uses.append("[%s]" % ix[2][1])
+                key = "%s:%s<-%s" % (it["name"], v, field)
+                rep.check(not uses, "C19-R6", key if not uses else key + ":" + ",".join(sorted(set(uses))),
+                          "%s: `%s` is filled while iterating the hash-ordered `%s` and then used position-wise (%s): which element that is differs between interpreter instances, so the same program computes different values" % (
+                              it["name"], v, field, sorted(set(uses))), "%s (%s)" % (it["name"], crate), sample={"fn": it["name"], "sequence": v, "from": field})
+    rep.floor("C19-R6", "sequences collected from hash-ordered fields", n_taint, 1)
